@@ -28,26 +28,30 @@ Theorem C29_len_except_known : forall v keys l, py_path v keys = Some (JList l) 
 Proof. exact len_py. Qed.
 Print Assumptions C29_len_except_known.
 
-(* JSON truthiness by the textual NOT IN list = Python truthiness, for every value that is not a float zero *)
-Theorem C29_nonzero_except_known : forall v, zero_float v = false -> json_nonzero v = py_truthy v.
+(* JSON truthiness by the textual NOT IN list (with 0.0 / -0.0 since fix 8c0b3e1) = Python truthiness, for every value except a float
+   zero spelled differently from json.dumps (0.00 ...), which only a document written by something else can contain *)
+Theorem C29_nonzero : forall v, float_wf v = true -> odd_zero_float v = false -> json_nonzero v = py_truthy v.
 Proof. exact nonzero_truthy. Qed.
-Print Assumptions C29_nonzero_except_known.
+Print Assumptions C29_nonzero.
+(* PostgreSQL (documented jsonb semantics, not executed): jsonb equality compares numbers numerically, so the six-literal list is complete *)
+Theorem C29_nonzero_postgresql : forall v, pg_json_nonzero v = py_truthy v.
+Proof. exact pg_nonzero_truthy. Qed.
+Print Assumptions C29_nonzero_postgresql.
 
-(* arrays on SQLite: ArrayMixin._index + py_array_index / py_array_slice = Python indexing / slicing (Base/Seg.py_slice),
-   except for an index / bound below -len that the second wrap-around brings back into range *)
+(* arrays on SQLite: since fix 3338ea9 ArrayMixin._index passes indexes and bounds through and py_array_index / py_array_slice are
+   Python indexing / slicing (Base/Seg.py_slice) of the decoded list: for every index and every pair of bounds *)
+Theorem C29_array_index_sqlite : forall (l : list Z) v, sqlite_array_index l v = arr_get l v.
+Proof. exact sqlite_index_ok. Qed.
+Print Assumptions C29_array_index_sqlite.
+Theorem C29_array_slice_sqlite : forall (l : list Z) a b, sqlite_array_slice l a b = py_slice l a b.
+Proof. exact sqlite_slice_ok. Qed.
+Print Assumptions C29_array_slice_sqlite.
+
+(* PostgreSQL (documented subscript semantics, not executed): both branches of _index agree, and the 1-based subscripts are right for
+   every index and every pair of bounds *)
 Theorem C29_index_forms : forall p len v, 0 <= p <= 1 -> index_const p len v = index_expr p len v.
 Proof. exact index_forms. Qed.
 Print Assumptions C29_index_forms.
-Theorem C29_array_index_sqlite_except_known : forall (l : list Z) v,
-  ~ wraps_twice (zlen l) v -> sqlite_array_index l v = arr_get l v.
-Proof. exact sqlite_index_ok. Qed.
-Print Assumptions C29_array_index_sqlite_except_known.
-Theorem C29_array_slice_sqlite_except_known : forall (l : list Z) a b,
-  bound_ok (zlen l) a -> bound_ok (zlen l) b -> sqlite_array_slice l a b = py_slice l a b.
-Proof. exact sqlite_slice_ok. Qed.
-Print Assumptions C29_array_slice_sqlite_except_known.
-
-(* PostgreSQL (documented subscript semantics, not executed): right for every index and every pair of bounds *)
 Theorem C29_array_index_postgresql : forall (l : list Z) v, pg_array_index l v = arr_get l v.
 Proof. exact pg_index_ok. Qed.
 Print Assumptions C29_array_index_postgresql.
